@@ -86,23 +86,37 @@ func (p *Path) vxDeclStr(max int, exact bool, tag string) StringVal {
 	if exact {
 		n = mkInt(int64(max))
 		// keep the replay vector shape identical: a length slot is still recorded
-		lv := p.fresh("vx", KBV, 64)
-		p.vx = append(p.vx, VxVar{Name: lv.S, K: KBV, W: 64, Tag: tag + ".len"})
+		lv := p.vxScalar(KBV, 64, tag+".len")
 		p.assume(p.bvCmp("=", lv, n))
 	} else {
-		n = p.fresh("vx", KBV, 64)
-		p.vx = append(p.vx, VxVar{Name: n.S, K: KBV, W: 64, Tag: tag + ".len"})
+		n = p.vxScalar(KBV, 64, tag+".len")
+		if n.C && n.U > uint64(max) {
+			n = mkInt(int64(max))
+		}
 		p.assume(p.bvCmp("bvule", n, mkInt(int64(max))))
 	}
 	b := make([]*Term, max)
 	for i := range b {
-		b[i] = p.fresh("vx", KBV, 8)
-		p.vx = append(p.vx, VxVar{Name: b[i].S, K: KBV, W: 8, Tag: fmt.Sprintf("%s[%d]", tag, i)})
+		b[i] = p.vxScalar(KBV, 8, fmt.Sprintf("%s[%d]", tag, i))
 	}
 	return StringVal{b: b, n: n}
 }
 
 func (p *Path) vxScalar(k Kind, w int, tag string) *Term {
+	if cv := p.ex.cfg.Concrete; cv != nil {
+		var u uint64
+		if len(p.vx) < len(cv) {
+			u = cv[len(p.vx)]
+		}
+		p.vx = append(p.vx, VxVar{Name: fmt.Sprintf("c%d", len(p.vx)), K: k, W: w, Tag: tag})
+		switch k {
+		case KBool:
+			return mkBool(u != 0)
+		case KFP:
+			return mkF64(math.Float64frombits(u))
+		}
+		return mkBV(w, u)
+	}
 	t := p.fresh("vx", k, w)
 	p.vx = append(p.vx, VxVar{Name: t.S, K: k, W: w, Tag: tag})
 	return t
@@ -465,7 +479,91 @@ func (in *Interp) sortByLess(p *Path, fr *Frame, s SliceVal, less func(i, j int)
 	}
 }
 
+func classifyPanic(msg string) int {
+	switch {
+	case strings.Contains(msg, "index out of range"):
+		return 1
+	case strings.Contains(msg, "slice bounds out of range"), strings.Contains(msg, "makeslice"):
+		return 2
+	case strings.Contains(msg, "divide by zero"):
+		return 3
+	case strings.Contains(msg, "nil pointer"), strings.Contains(msg, "nil function"), strings.Contains(msg, "nil interface"):
+		return 4
+	case strings.Contains(msg, "nil map"):
+		return 6
+	case strings.Contains(msg, "negative shift"):
+		return 7
+	case strings.Contains(msg, "explicit panic"), strings.HasPrefix(msg, "panic:"):
+		return 5
+	}
+	return 9
+}
+
 func init() {
+	vxExtra["vxCatch"] = func(in *Interp, p *Path, fr *Frame, args []Val, site ssa.CallInstruction) (ret Val) {
+		depth := p.depth
+		defer func() {
+			if r := recover(); r != nil {
+				pe, ok := r.(pathEnd)
+				if !ok || pe.kind != "panic" {
+					panic(r)
+				}
+				p.depth = depth
+				ret = mkInt(int64(classifyPanic(pe.msg)))
+			}
+		}()
+		in.callFunction(p, fr, args[0].(FuncVal), nil, site)
+		return mkInt(0)
+	}
+	vxExtra["vxReportInts"] = func(in *Interp, p *Path, fr *Frame, args []Val, site ssa.CallInstruction) Val {
+		name := argStr(p, args[0])
+		sl := args[1].(SliceVal)
+		var out []int64
+		if sl.back != nil {
+			for _, e := range sl.elems()[:sl.concLen()] {
+				t := asTerm(e)
+				if !t.C {
+					return nil // only meaningful in concrete replay mode
+				}
+				out = append(out, sext(t.U, t.W))
+			}
+		}
+		p.ex.res.mu.Lock()
+		if p.ex.res.Reports == nil {
+			p.ex.res.Reports = map[string][]int64{}
+		}
+		p.ex.res.Reports[name] = out
+		p.ex.res.mu.Unlock()
+		return nil
+	}
+	vxExtra["vxInts"] = func(in *Interp, p *Path, fr *Frame, args []Val, site ssa.CallInstruction) Val {
+		max := argInt(p, args[0])
+		n := p.vxScalar(KBV, 64, "ints.len")
+		p.assume(p.bvCmp("bvule", n, mkInt(int64(max))))
+		el := make([]Val, max)
+		for i := range el {
+			el[i] = p.vxScalar(KBV, 64, fmt.Sprintf("ints[%d]", i))
+		}
+		k := p.concretize(n, 0, max)
+		s := newSlice(el)
+		s.n = mkInt(int64(k))
+		s.cap = k
+		return s
+	}
+	vxExtra["vxIntsEq"] = func(in *Interp, p *Path, fr *Frame, args []Val, site ssa.CallInstruction) Val {
+		a, b := args[0].(SliceVal), args[1].(SliceVal)
+		if !a.n.C || !b.n.C {
+			p.end("unsupported", "vxIntsEq on symbolic lengths")
+		}
+		if a.n.U != b.n.U {
+			return termFalse
+		}
+		r := termTrue
+		for i := 0; i < int(a.n.U); i++ {
+			r = p.and(r, p.eq(asTerm(a.elems()[i]), asTerm(b.elems()[i])))
+		}
+		return r
+	}
 	vxExtra["vxSetEnviron"] = func(in *Interp, p *Path, fr *Frame, args []Val, site ssa.CallInstruction) Val {
 		p.stubs["os.Environ"] = args[0]
 		return nil
